@@ -45,6 +45,9 @@ def GeoJSON_read_decorators : List String := ["classmethod"]
 /-- the signature of dataiter/geojson.py: GeoJSON.read: parameters in order, with the source text of their defaults -/
 def GeoJSON_read_signature : List String := ["cls", "path", "*", "encoding='utf-8'", "columns=[]", "dtypes={}", "**kwargs"]
 
+/-- the calls of dataiter/geojson.py: GeoJSON.read in the order Python makes them along the source text -/
+def GeoJSON_read_call_order : List String := ["util.xopen", "json.load", "AttributeDict", "cls._check_raw_data", "data.setdefault", "data.items", "feature.properties.get", "data[key].append", "dtypes.items", "DataFrameColumn", "cls"]
+
 /-- dataiter/geojson.py: GeoJSON.write (sha256 of the function source: fc3f70aef193d971) -/
 def GeoJSON_write (truth : Term → Bool) : Out :=
   let eff0 : Term := (Term.app ".setdefault" [(Term.sym "kwargs"), (Term.sym "'default'"), (Term.sym "str")]);
@@ -77,6 +80,9 @@ def GeoJSON_write_decorators : List String := []
 /-- the signature of dataiter/geojson.py: GeoJSON.write: parameters in order, with the source text of their defaults -/
 def GeoJSON_write_signature : List String := ["self", "path", "*", "encoding='utf-8'", "**kwargs"]
 
+/-- the calls of dataiter/geojson.py: GeoJSON.write in the order Python makes them along the source text -/
+def GeoJSON_write_call_order : List String := ["kwargs.setdefault", "kwargs.setdefault", "kwargs.pop", "ValueError", "self.to_list_of_dicts", "util.makedirs_for_file", "util.xopen", "f.write", "self.metadata.items", "json.dumps", "json.dumps", "f.write", "f.write", "enumerate", "item.pop", "json.dumps", "len", "f.write", "f.write", "f.write"]
+
 /-- dataiter/geojson.py: GeoJSON._check_raw_data (sha256 of the function source: 9c9a717d6abbcddd) -/
 def GeoJSON_check_raw_data (truth : Term → Bool) : Out :=
   if truth (Term.app "NotIn" [(Term.app ".type" [(Term.sym "data")]), (Term.app ".TOP_LEVEL_TYPES" [(Term.sym "cls")])]) then
@@ -92,6 +98,9 @@ def GeoJSON_check_raw_data_decorators : List String := ["classmethod"]
 /-- the signature of dataiter/geojson.py: GeoJSON._check_raw_data: parameters in order, with the source text of their defaults -/
 def GeoJSON_check_raw_data_signature : List String := ["cls", "data"]
 
+/-- the calls of dataiter/geojson.py: GeoJSON._check_raw_data in the order Python makes them along the source text -/
+def GeoJSON_check_raw_data_call_order : List String := ["TypeError", "cls._check_raw_feature"]
+
 /-- dataiter/geojson.py: GeoJSON._check_raw_feature (sha256 of the function source: 743845867d32ad33) -/
 def GeoJSON_check_raw_feature (truth : Term → Bool) : Out :=
   if truth (Term.app "NotIn" [(Term.app ".type" [(Term.sym "feature")]), (Term.app ".FEATURE_TYPES" [(Term.sym "cls")])]) then
@@ -106,5 +115,8 @@ def GeoJSON_check_raw_feature_decorators : List String := ["classmethod"]
 
 /-- the signature of dataiter/geojson.py: GeoJSON._check_raw_feature: parameters in order, with the source text of their defaults -/
 def GeoJSON_check_raw_feature_signature : List String := ["cls", "feature", "warned_feature_keys"]
+
+/-- the calls of dataiter/geojson.py: GeoJSON._check_raw_feature in the order Python makes them along the source text -/
+def GeoJSON_check_raw_feature_call_order : List String := ["TypeError", "set", "set", "print", "warned_feature_keys.append", "feature.properties.items", "tuple", "isinstance", "type", "TypeError"]
 
 end DI.Gen
